@@ -384,12 +384,20 @@ package asp
 //@      (o == Equal || o == NotEqual || o == LessThan || o == GreaterThan || o == In || o == NotIn || o == Is || o == IsNot ==> result == 0)
 //@   ensures unary_minus_binds_tightest [C16]: o != Negate ==> result < 4
 
+// newPyInt returns its argument as a pyInt (small values come from a table of interned ints filled at start-up
+// with internedInts[k] == k: assumed).
+//@ assume func newPyInt
+//@   modifies nothing
+//@   ensures value: result == i
 // Integer % follows Python: the result has the sign of the divisor (0 <= r < o for o > 0, o < r <= 0 for o < 0)
 // and differs from the dividend by a multiple of the divisor.
 //@ func (pyInt).Operator
 //@   opt nopanic=off
 //@   opt panics=allowed
 //@   opt inline=off
+//@   ensures floor_division_rounds_down [C16]: operator == FloorDivide && dyntype(operand, pyInt) && unbox(operand, pyInt) != 0 ==> dyntype(result, pyInt) && \
+//@      (unbox(operand, pyInt) > 0 ==> unbox(result, pyInt) * unbox(operand, pyInt) <= i && i < (unbox(result, pyInt) + 1) * unbox(operand, pyInt)) && \
+//@      (unbox(operand, pyInt) < 0 ==> unbox(result, pyInt) * unbox(operand, pyInt) >= i && i > (unbox(result, pyInt) + 1) * unbox(operand, pyInt))
 //@   ensures modulo_has_the_sign_of_the_divisor [C16]: operator == Modulo && dyntype(operand, pyInt) ==> dyntype(result, pyInt) && \
 //@      (unbox(operand, pyInt) > 0 ==> 0 <= unbox(result, pyInt) && unbox(result, pyInt) < unbox(operand, pyInt)) && \
 //@      (unbox(operand, pyInt) < 0 ==> unbox(operand, pyInt) < unbox(result, pyInt) && unbox(result, pyInt) <= 0)
